@@ -526,11 +526,27 @@ impl AsEntry {
         &self,
         path_segment: &'seg PathSegment<SignedAsEntry>,
     ) -> (usize, impl Iterator<Item = &'seg [u8]>) {
+        // Position of this entry: the first equal entry, or the end if it is not part of the
+        // segment yet (signing).
+        let position = path_segment
+            .as_entries
+            .iter()
+            .position(|e| e.entry == *self)
+            .unwrap_or(path_segment.as_entries.len());
+        Self::associated_data_at(path_segment, position)
+    }
+
+    /// Associated data of the entry at `position`: the segment info and the signed messages of the
+    /// entries `0..position`.
+    #[inline]
+    fn associated_data_at(
+        path_segment: &PathSegment<SignedAsEntry>,
+        position: usize,
+    ) -> (usize, impl Iterator<Item = &[u8]>) {
         let entry_iter = path_segment
             .as_entries
             .iter()
-            // Take all entries before the current one in the path segment.
-            .take_while(|e| e.entry != *self)
+            .take(position)
             .flat_map(|entry| {
                 [
                     entry.signed.header_and_body.as_slice(),
@@ -702,7 +718,16 @@ impl SignedAsEntry {
         key_provider: impl Fn(&[u8]) -> Result<p256::ecdsa::VerifyingKey, ValidateError>,
         path_segment: &PathSegment<SignedAsEntry>,
     ) -> Result<(), ValidateError> {
-        let assoc_data = self.entry.associated_data(path_segment);
+        // Locate this entry by identity (it normally is an element of `path_segment`), so that a
+        // byte-identical copy of an earlier entry is validated at its own position; fall back to
+        // the first equal signed entry for detached copies.
+        let position = path_segment
+            .as_entries
+            .iter()
+            .position(|e| std::ptr::eq(e, self))
+            .or_else(|| path_segment.as_entries.iter().position(|e| e == self))
+            .unwrap_or(path_segment.as_entries.len());
+        let assoc_data = AsEntry::associated_data_at(path_segment, position);
 
         self.signed.validate(key_provider, assoc_data)?;
 
